@@ -57,8 +57,26 @@ def requestor_run(c, server_port, acceptor_ae):
             cxs = [build_context(u, TS3[:1]) for u in storage_uids(n)]
         elif c["shape"] == "same_abstract":
             cxs = [build_context(CT, [TS3[k % 3]]) for k in range(n)]
+        elif c["shape"] in ("no_ts", "no_abstract"):
+            from pynetdicom.presentation import PresentationContext
+            cxs = [build_context(u, TS3[:1]) for u in storage_uids(n)]
+            bare = PresentationContext()
+            if c["shape"] == "no_ts":
+                bare.abstract_syntax = cxs[-1].abstract_syntax
+            else:
+                bare.transfer_syntax = TS3[:1]
+            cxs[-1] = bare
         else:
             cxs = [build_context(u, TS3) for u in storage_uids(n)]
+        # contexts that carry an ID from elsewhere (an earlier association's accepted_contexts, or set by the caller)
+        origin = c.get("ids", "fresh")
+        for k, cx in enumerate(cxs):
+            if origin == "reused" and k < 64:
+                cx.context_id = 4 * k + 1
+            elif origin == "mixed" and k >= 1:
+                cx.context_id = 2 * (k - 1) + 1 if k <= 127 else 255
+            elif origin == "dup":
+                cx.context_id = 1
         ext = []
         if "role" in c["ext"]:
             ext.append(build_role(CT, scu_role=True, scp_role=True))
@@ -132,13 +150,14 @@ def run(ctx: Ctx) -> int:
         p = _P(r.out)
         p.i = m.start()
         v = p.value()[1]
-        cases.append({**{k: v[k] for k in ("calling", "called", "n", "shape", "maxpdu", "ver", "acc")}, "ext": sorted(v["ext"])})
+        cases.append({**{k: v[k] for k in ("calling", "called", "n", "shape", "maxpdu", "ver", "acc", "ids")}, "ext": sorted(v["ext"])})
     if len(cases) < 100:
         raise MachineryError(f"only {len(cases)} configurations exported")
     if ctx.tier == "thorough":
         rng = random.Random(ctx.seed + 12)
-        opts = {"calling": list(TITLE), "called": ["max16", "padded", "one"], "n": [1, 2, 3, 127, 128, 129], "shape": ["distinct", "same_abstract", "many_ts"],
-                "maxpdu": ["zero", "default", "u32max", "small"], "ver": ["default", "none", "long16"], "acc": ["all", "none", "some_roles_off", "ts_mismatch"]}
+        opts = {"calling": list(TITLE), "called": ["max16", "padded", "one"], "n": [1, 2, 3, 127, 128, 129], "shape": ["distinct", "same_abstract", "many_ts", "many_ts", "no_ts", "no_abstract"],
+                "maxpdu": ["zero", "default", "u32max", "small"], "ver": ["default", "none", "long16"], "acc": ["all", "none", "some_roles_off", "ts_mismatch"],
+                "ids": ["fresh", "fresh", "reused", "mixed", "dup"]}
         for _ in range(600):
             c = {k: rng.choice(v) for k, v in opts.items()}
             c["ext"] = sorted(x for x in ("role", "async", "sopext", "common", "identity") if rng.random() < 0.4)
